@@ -6,7 +6,9 @@ from harness.common import coq_list
 
 PATS = ["AUTH_STURDYREF_RE", "OLD_STYLE_HINT_RE", "NEW_STYLE_HINT_RE", "TOR_HINT_RE", "I2P_HINT_RE"]
 REQ = ["Verif.lib.PyLite", "Verif.lib.Regex", "Verif.gen.FurlGen", "Verif.lib.Furl"]
-KINDS = {"tcp": "KTcp", "tor": "KTor", "i2p": "KI2p"}
+KINDS = {"tcp": "KTcp", "tor": "KTor", "i2p": "(KI2p None)", "i2p+port": "(KI2p (Some 7777%Z))",
+         "plug-ok": "(KPlugin (fun h => Ok (EpTcp h 1%Z)))", "plug-invalid": "(KPlugin (fun _ => invalid))",
+         "plug-keyerror": "(KPlugin (fun _ => Exc \"KeyError\"))", "plug-deferred-fail": "(KPlugin (fun _ => Exc \"KeyError\"))"}
 HANDLER_SETS = [
     {"tcp": "tcp"},
     {"tcp": "tcp", "tor": "tor", "i2p": "i2p"},
@@ -15,6 +17,14 @@ HANDLER_SETS = [
     {},
     {"a": "tcp", "": "tor", "x": "i2p"},
 ]
+# handler sets beyond foolscap's three plain handlers: an i2p handler with a default port, third-party plugins that answer
+# with an endpoint / InvalidHintError / another exception (synchronously or through a failed Deferred)
+EXTRA_HANDLER_SETS = [
+    {"tcp": "tcp", "i2p": "i2p+port"},
+    {"tcp": "tcp", "x": "plug-ok", "a": "plug-invalid", "i2p": "plug-keyerror", "tor": "plug-deferred-fail"},
+    {"tcp": "plug-ok", "i2p": "i2p+port", "": "plug-keyerror"},
+]
+RAISING_PLUGINS = {"plug-keyerror": "KeyError", "plug-deferred-fail": "KeyError"}
 SPECIAL = ":.[]%-,/@\n"
 ODD = ["\u0663", "\u212a", "\u00e9", "\x00", "\uff11", "\U0001d7d8", " ", "_", "+", "\r", "\u0130", "A", "Z", "7", "8", "0"]
 
@@ -43,8 +53,26 @@ def gen_host(rng):
     return "".join(rng.choice("abzAZ09.-") for _ in range(n))
 
 
+# characters that have a Unicode numeric property but are NOT decimal digits: str.isdigit() / str.isnumeric() accept
+# (some of) them, \d and int() do not -- superscripts, circled / parenthesised / full-stop digits, Ethiopic and Tai Lue
+# digits, Kharoshthi, fractions, Roman numerals, CJK numerals
+NUMERIC_NOT_DECIMAL = ["\u00b2", "\u00b3", "\u00b9", "\u2070", "\u2078", "\u2460", "\u2474", "\u2488", "\u24f5", "\u2776",
+                       "\u1369", "\u19da", "\U00010a40", "\U0001f101", "\u00bd", "\u2167", "\u3007", "\u4e09", "\u0f2a"]
+
+
+def numeric_witnesses():
+    """each such character alone and next to an ASCII digit in every digit position of every hint form"""
+    out = []
+    for c in NUMERIC_NOT_DECIMAL:
+        out += ["example.org:" + c, "example.org:8" + c, "10.1.2.3:" + c, "example.org:" + c * 5, "tcp:h:" + c, "tcp:h:8" + c,
+                "tor:h:" + c + "0", "i2p:h:" + c, "1.2.3." + c + ":80", c + ".2.3.4:80", "tcp:[::" + c + "]:1"]
+    return out
+
+
 def gen_port(rng):
     k = rng.randrange(8)
+    if k == 1 and rng.random() < 0.5:
+        return "".join(rng.choice(NUMERIC_NOT_DECIMAL + list("0123456789")) for _ in range(rng.randrange(1, 6)))
     if k == 0:
         return rng.choice(["", "0", "00000", "99999", "100000", "080", "\u0663\u0664", "1\n", "1_0", "+1", " 1", "1 "])
     return str(rng.randrange(0, 10 ** rng.randrange(1, 7)))
@@ -237,6 +265,8 @@ def furl_obs(r):
         return [[1], [ord(c) for c in t], [ord(c) for c in n]] + [[ord(c) for c in x] for x in h]
     if r[2]:
         return [[0]]
+    if r[1] == "UnicodeDecodeError":
+        return [[-3]]
     if r[3]:
         return [[-1]]
     return [[-2]]
@@ -249,7 +279,7 @@ def ep_obs(r):
         return [[code], [ord(c) for c in host], [] if port is None else [port]]
     if r[2]:
         return [[0]]
-    return [[-1]] if r[1] == "ValueError" else [[-2]]
+    return {"ValueError": [[-1]], "TypeError": [[-3]], "KeyError": [[-4]]}.get(r[1], [[-2]])
 
 
 def correspond_functions(ctx, impl, furls, hints):
@@ -460,6 +490,26 @@ def oracle_encode_decode(ctx, impl, triple, as_bytes=False):
     return f
 
 
+def spelling_variants(impl, t, h, n):
+    """FURLs whose tub id / name differ from (t, n) only by a normalisation somebody might consider harmless: letter case
+    (all, first letter), the Kelvin sign for k, surrounding whitespace or a NUL in the name, Unicode NFC / NFD / NFKC"""
+    import unicodedata
+    tubs = {t, t.upper(), t.lower(), t[:1].swapcase() + t[1:], t.replace("k", "\u212a"), t.replace("\u212a", "k")}
+    names = {n, n.upper(), n.lower(), n + " ", " " + n, n.rstrip("/"), n + "/", unicodedata.normalize("NFD", n),
+             unicodedata.normalize("NFKC", n), unicodedata.normalize("NFC", n)}
+    out = []
+    for t2 in sorted(tubs):
+        for n2 in sorted(names):
+            if t2 and n2 and "\n" not in n2 and (t2, n2) != (t, n) and (t2 == t or n2 == n):
+                out.append(impl.encode(t2, h[:1], n2))
+    return out
+
+
+IDENTITY_WITNESSES = ["pb://q5l37rle6pojjnllrwjyryulavpqdlq5@/name", "pb://Q5L37RLE6POJJNLLRWJYRYULAVPQDLQ5@/name",
+                      "pb://q5l37RLE6pojjnllrwjyryulavpqdlq5@127.0.0.1:9900/name", "pb://abk@h:1/Name", "pb://ABK@h:1/Name",
+                      "pb://ab\u212a@h:1/Name", "pb://abk@h:1/name", "pb://abk@h:1/Name ", "pb://abk@h:1/\u00e9", "pb://abk@h:1/e\u0301"]
+
+
 def oracle_identity(ctx, impl, furls):
     """SturdyRef equality / hash agree with (tubID, name); TubRef with tubID"""
     from foolscap.referenceable import SturdyRef, TubRef
@@ -501,13 +551,31 @@ def oracle_hint(ctx, impl, s, hs):
     ctx.case(["hint", s, sorted(hs.items())], nontrivial=(r[0] == "ok" or ":" in s))
     ctx.hist("get_endpoint", "endpoint:" + r[1][0] if r[0] == "ok" else r[1])
     if r[0] == "exc" and not r[2]:
-        ctx.fail("oracle/hint-other-exception", "get_endpoint(%r) with handlers %r ended in %s, not InvalidHintError" % (s, hs, r[1]),
-                 replay=dict(hint=s, handlers=hs, exception=r[1]))
+        conv = impl.convert_legacy(s)
+        chosen = hs.get(conv[1].split(":", 1)[0]) if conv[0] == "ok" and ":" in conv[1] else None
+        if chosen in RAISING_PLUGINS and r[1] == RAISING_PLUGINS[chosen]:
+            pass         # the third-party plugin registered for this hint type raised it itself (C20_hint_exception_origin)
+        elif chosen == "i2p+port" and r[1] == "TypeError":
+            ctx.fail("oracle/i2p-default-port-typeerror",
+                     "get_endpoint(%r) with an i2p handler that was created with a default port (i2p.sam_endpoint(ep, port=%d), handlers %r) "
+                     "ended in TypeError, not in an endpoint or InvalidHintError: the hint's own port is passed positionally and "
+                     "port=%d by keyword" % (s, impl.I2P_DEFAULT_PORT, hs, impl.I2P_DEFAULT_PORT),
+                     replay=dict(hint=s, handlers=hs, exception=r[1],
+                                 python="harness.c20_impl.get_endpoint(%r, %r)" % (s, hs)))
+        else:
+            ctx.fail("oracle/hint-other-exception", "get_endpoint(%r) with handlers %r ended in %s, not InvalidHintError" % (s, hs, r[1]),
+                     replay=dict(hint=s, handlers=hs, exception=r[1]))
     if r[0] == "ok":
         kind, host, port, host2 = r[1]
         if host != host2 or not isinstance(host, str) or not (port is None or (isinstance(port, int) and 0 <= port <= 99999)):
             ctx.fail("oracle/hint-bad-endpoint", "get_endpoint(%r) built an endpoint with host %r / %r port %r" % (s, host, host2, port),
                      replay=dict(hint=s, handlers=hs, endpoint=r[1]))
+    if "i2p+port" in hs.values():
+        d = impl.hint_to_endpoint("i2p+port", s)
+        if d[0] == "exc" and not d[2]:
+            ctx.fail("oracle/i2p-default-port-typeerror" if d[1] == "TypeError" else "oracle/hint-other-exception",
+                     "an i2p handler created with a default port (port=%d): hint_to_endpoint(%r) raised %s, not InvalidHintError"
+                     % (impl.I2P_DEFAULT_PORT, s, d[1]), replay=dict(hint=s, handler="i2p+port", exception=d[1]))
     for kind in ("tcp", "tor", "i2p"):
         d = impl.hint_to_endpoint(kind, s)
         if d[0] == "exc" and not d[2]:
@@ -539,6 +607,84 @@ def oracle_history(ctx, impl, furls):
                      replay=dict(furl=subject, as_bytes=as_bytes, mutation=mutation, problems=probs,
                                  python="harness.c20_impl.history_probe(%r, %r, %r)" % (subject, mutation, as_bytes)))
     ctx.extra["history_cases"] = n
+
+
+MALFORMED_UTF8 = [b"\xff", b"pb://\xffa@h/n", b"pb://a@h/\xc3", b"\xc0\xaf", b"pb://a@h/\xc0\xaf", b"pb://a@h/\xc1\xbf", b"pb://a@h/\xed\xa0\x80",
+                  b"pb://a@h/\xed\xbf\xbf", b"pb://a@h/\xf4\x90\x80\x80", b"pb://a@h/\xe0\x9f\xbf", b"pb://a@h/\xf0\x8f\xbf\xbf", b"pb://a@h/\xe2\x82",
+                  b"\xc2", b"pb://a@h/\xf5\x80\x80\x80", b"pb://a@h/\x80", b"pb://a@h/\xbf", b"pb://a@h/\xe2\x28\xa1", b"pb://a@h/\xf0\x9f\x98",
+                  # well-formed boundary cases
+                  b"pb://a@h/\xf0\x9f\x98\x80", b"pb://a@h/\xef\xbf\xbf", b"pb://a@h/\xed\x9f\xbf", b"pb://a@h/\xee\x80\x80", b"pb://a@h/\xc2\x80",
+                  b"pb://a@h/\xdf\xbf", b"pb://a@h/\xe0\xa0\x80", b"pb://a@h/\xf0\x90\x80\x80", b"pb://a@h/\xf4\x8f\xbf\xbf", b"pb://\xe2\x84\xaa@h/n"]
+
+
+def correspond_bytes(ctx, impl, furls, rng):
+    """decode_furl on bytes: the model's strict UTF-8 decoder followed by decode_furl, against the real function"""
+    cases = list(MALFORMED_UTF8)
+    for f in furls[:ctx.n(150, 1500)]:
+        try:
+            b = f.encode("utf-8")
+        except UnicodeEncodeError:
+            continue
+        cases.append(b)
+        if rng.random() < 0.5 and b:
+            i = rng.randrange(len(b))
+            cases.append(b[:i] + bytes([rng.choice([0x80, 0xbf, 0xc0, 0xc2, 0xe0, 0xed, 0xf0, 0xf4, 0xf5, 0xff, rng.randrange(0x80, 0x100)])]) + b[i + rng.choice([0, 1]):])
+    seen = set()
+    cases = [c for c in cases if not (c in seen or seen.add(c))]
+    body = ("\nDefinition cases : list (list Z) := " + coq_list(["[" + ";".join(str(x) for x in c) + "]%Z" for c in cases]) + ".\n"
+            + "Eval vm_compute in map (fun b => furl_code (decode_furl_bytes b)) cases.\n")
+    try:
+        (vals,) = ctx.coq_eval("C20_bytes", body, requires=REQ)
+    except common.CoqEvalError as e:
+        ctx.fail("correspondence-broken", "the bytes-FURL model could not be evaluated: " + tail(str(e), 1200), has_input=False)
+        return
+    bad = 0
+    for b, v in zip(cases, vals):
+        r = impl.decode(b)
+        theirs = furl_obs(r)
+        ctx.traces += 1
+        ctx.case(["bytes-furl", list(b)], nontrivial=(r[0] == "ok" or r[1] == "UnicodeDecodeError"))
+        ctx.hist("decode_furl(bytes)", "ok" if r[0] == "ok" else r[1])
+        if r[0] == "exc" and not (r[2] or r[3]):
+            ctx.fail("oracle/decode-other-exception", "decode_furl(%r) raised %s, neither BadFURLError nor a ValueError" % (b, r[1]),
+                     replay=dict(furl=repr(b), exception=r[1]))
+        if v != theirs:
+            bad += 1
+            if bad <= 3:
+                ctx.fail("correspondence/decode_furl-bytes", "model and decode_furl disagree on the bytes %r: model %r, implementation %r"
+                         % (b, v, theirs), replay=dict(furl=repr(b), model=v, impl=theirs), has_input=False)
+    ctx.extra["bytes_correspondence_cases"] = len(cases)
+
+
+def oracle_containment(ctx, impl):
+    """per-hint containment on a real Tub: hints whose handler raises (a third-party plugin raising KeyError at once or
+    through a failed Deferred, the i2p handler with a default port) must neither escape from getReference nor keep the
+    other hints of the same FURL from being tried, and a FURL with only such hints is answered at once"""
+    plugins = {"boom": "plug-keyerror", "late": "plug-deferred-fail", "i2p": "i2p+port", "no": "plug-invalid"}
+    t = TUBS3[0]
+    good = ("good.example.org", 1234)
+    hists = [
+        ("a usable hint after raising ones", [["getref", "pb://%s@boom:x,i2p:a:80,late:y,no:z,tcp:good.example.org:1234/real" % t], ["advance", 1]], True),
+        ("a usable hint before raising ones", [["getref", "pb://%s@tcp:good.example.org:1234,no:z,late:y,i2p:a:80,boom:x/real2" % t], ["advance", 1]], True),
+        ("only raising hints", [["getref", "pb://%s@boom:x,late:y,no:z/gift" % t], ["advance", 1]], False),
+    ]
+    for label, evs, usable in hists:
+        try:
+            obs = impl.tub_history(evs, plugins=plugins)
+        except Exception as e:  # noqa
+            ctx.fail("oracle/hint-exception-not-contained", "%s: getReference / the reactor turn raised %s: %s (events %r, handlers %r)"
+                     % (label, type(e).__name__, e, evs, plugins), replay=dict(events=evs, handlers=plugins))
+            continue
+        ctx.case(["containment", label], nontrivial=True)
+        connects = [tuple(c) for o in obs for c in o["connects"]]
+        fired = obs[-1]["fired"]
+        if usable and (good not in connects or 0 in obs[0]["fired"]):
+            ctx.fail("oracle/hint-exception-not-contained", "%s: FURL %r on a Tub with handlers %r: connection attempts %r, getReference "
+                     "answered early: %r -- the hint tcp:good.example.org:1234 must be tried whatever the other handlers raise"
+                     % (label, evs[0][1], plugins, connects, obs[0]["fired"]), replay=dict(events=evs, handlers=plugins, observations=obs))
+        if not usable and 0 not in fired:
+            ctx.fail("oracle/hint-exception-not-contained", "%s: FURL %r on a Tub with handlers %r is still unanswered one second later"
+                     % (label, evs[0][1], plugins), replay=dict(events=evs, handlers=plugins, observations=obs))
 
 
 # ------------------------------------------------------------------------------ SturdyRefs that arrive as copies
@@ -593,7 +739,12 @@ def oracle_identity_copies(ctx, impl, rng):
             ctx.case(["copy-identity", ha, hb, ta, na, tb, nb], nontrivial=True)
             ok = (v == [True, False, True, True, True]) if same else (isinstance(v, list) and v[0] is False and v[1] is True
                                                                       and v[3] is False and v[4] is False)
-            pairs.append((ta, na, tb, nb, v[0] if isinstance(v, list) else None))
+            pairs.append((ta, na, tb, nb, v[0] if isinstance(v, list) else None, impl.lt_verdict(a, b)))
+            lt, gt = impl.lt_verdict(a, b), impl.lt_verdict(b, a)
+            if ok and [lt, same, gt].count(True) != 1:
+                ctx.fail("oracle/sturdyref-order", "SturdyRef %s (tubID %s.., name %r) vs %s (tubID %s.., name %r): a < b is %r, a == b is %r, "
+                         "b < a is %r -- exactly one must hold" % (ha, ta[:6], na, hb, tb[:6], nb, lt, same, gt),
+                         replay=dict(a=dict(how=ha, tubID=ta, name=na), b=dict(how=hb, tubID=tb, name=nb), verdict=[lt, same, gt]))
             if not ok:
                 ctx.fail("oracle/sturdyref-copy-identity",
                          "SturdyRef %s (tubID %s.., name %r) vs %s (tubID %s.., name %r): tub id and name are %s, but "
@@ -628,19 +779,25 @@ def oracle_identity_copies(ctx, impl, rng):
 
 def correspond_identity(ctx, pairs):
     """the model's sref_eqb on the same (tub id, name) pairs"""
-    rows = ["(%s%%Z, %s%%Z, %s%%Z, %s%%Z)" % (zs(a), zs(b), zs(c), zs(d)) for a, b, c, d, _ in pairs]
+    rows = ["(%s%%Z, %s%%Z, %s%%Z, %s%%Z)" % (zs(a), zs(b), zs(c), zs(d)) for a, b, c, d, _, _ in pairs]
     rows = rows[:2000]
     body = ("\nDefinition cases : list (list Z * list Z * list Z * list Z) := " + coq_list(rows) + ".\n"
             "Definition mk (t n : list Z) := {| sr_tub := Some t; sr_hints := []; sr_name := Some n; sr_url := None |}.\n"
-            "Eval vm_compute in map (fun c => let '(a, b, c0, d) := c in sref_eqb (mk a b) (mk c0 d)) cases.\n")
+            "Definition lt_code (r : res bool) := match r with Ok true => 1%Z | Ok false => 0%Z | Exc _ => (-1)%Z end.\n"
+            "Eval vm_compute in map (fun c => let '(a, b, c0, d) := c in (sref_eqb (mk a b) (mk c0 d), lt_code (sref_ltb (mk a b) (mk c0 d)))) cases.\n")
     try:
         (vals,) = ctx.coq_eval("C20_ident", body, requires=REQ)
     except common.CoqEvalError as e:
         ctx.fail("correspondence-broken", "the identity model could not be evaluated: " + tail(str(e), 1200), has_input=False)
         return
     bad = 0
-    for (a, b, c, d, got), mv in zip(pairs, vals):
+    for (a, b, c, d, got, lt), (mv, mlt) in zip(pairs, vals):
         ctx.traces += 1
+        if {True: 1, False: 0}.get(lt, -1) != mlt:
+            bad += 1
+            if bad <= 2:
+                ctx.fail("correspondence/sturdyref-lt", "model sref_ltb code %r, implementation < gives %r for (%r, %r) vs (%r, %r)"
+                         % (mlt, lt, a, b, c, d), replay=dict(a=[a, b], b=[c, d]), has_input=False)
         if got is not None and got != mv:
             bad += 1
             if bad <= 2:
@@ -780,6 +937,8 @@ def run_probe(payload, limit):
         r = subprocess.run(cmd, input=json.dumps(payload), env=common.impl_env(), capture_output=True, text=True, timeout=limit)
         out, timed_out = r.stdout, False
         err = r.stderr if r.returncode != 0 else ""
+        if r.returncode == -24:                      # SIGXCPU: the probe's own CPU-time limit (see c20_impl.probe)
+            timed_out, err = True, ""
     except subprocess.TimeoutExpired as e:
         out = e.stdout or ""
         if isinstance(out, bytes):
@@ -849,7 +1008,11 @@ def corpus(ctx, impl):
     for path in sorted(glob.glob(os.path.join(common.VERIF, "corpus", "C20", "*.json"))):
         w = json.load(open(path))
         s = "".join(p * k for p, k in w["parts"])
-        pts, started, timed_out, err = run_probe(dict(parts=w["parts"], kind=w["kind"]), w.get("limit_s", 2.0) + 3.0)
+        # judged on CPU time (the child limits its own CPU time); the wall-clock limit is only a backstop for a loaded machine
+        pts, started, timed_out, err = run_probe(dict(parts=w["parts"], kind=w["kind"], cpu_limit=w.get("limit_s", 2.0)), 240.0)
+        if timed_out and started is None and not pts:
+            ctx.note("corpus probe %s: the child process did not reach the call within the wall-clock backstop (machine load); skipped" % os.path.basename(path))
+            continue
         name = os.path.basename(path)
         ctx.case(["corpus", name], nontrivial=True)
         if err:
@@ -866,8 +1029,9 @@ def corpus(ctx, impl):
             r = impl.get_endpoint(s, hs)
             got = r[1] if r[0] == "exc" else "endpoint"
             if got != w["expect"]:
-                ctx.fail("oracle/hint-other-exception" if r[0] == "exc" else "oracle/hint-bad-endpoint",
-                         "regression witness %s: get_endpoint(%r... %d chars) gave %s, expected %s" % (name, s[:40], len(s), got, w["expect"]),
+                ctx.fail(w.get("signature") or ("oracle/hint-other-exception" if r[0] == "exc" else "oracle/hint-bad-endpoint"),
+                         "regression witness %s (%s): get_endpoint(%r... %d chars) with handlers %r gave %s, expected %s"
+                         % (name, w.get("comment", ""), s[:40], len(s), hs, got, w["expect"]),
                          replay=dict(witness=name, parts=w["parts"], got=got))
 
 
@@ -908,7 +1072,9 @@ def run(ctx):
         "\\d, str.lower and int() digit values are taken from the running interpreter's unicodedata (regenerated every run)",
         "tor.is_non_public_numeric_address (ipaddress module) is an input of the model; its own totality is tested, not proved",
         "the handlers are exercised up to the endpoint constructor (tor: _maybe_connect returns at once; i2p: constructor arguments recorded)",
-        "six.ensure_str on bytes input (UTF-8 decoding) is outside the model; UnicodeDecodeError is a ValueError",
+        "six.ensure_str on bytes = strict UTF-8 decoding is hand-modelled (Furl.utf8_dec) and compared with the real decode_furl on bytes; non-str/bytes arguments (TypeError) are outside the quantifier",
+        "a third-party plugin is abstracted to the outcome of its hint_to_endpoint per hint (endpoint / exception class); a Deferred it returns is taken at its final result",
+        "TubConnector.connectToAll's per-hint containment is not in the Coq model: oracle on a real Tub with raising plugins only",
     ]
     ok, log = ctx.coq_build(["props/C20.vo"])
     from harness import c20_impl as impl
@@ -935,6 +1101,13 @@ def run(ctx):
               "tor:1.2.3.4:5", "tor:127.0.0.1:5", "tor:[::1]:5", "tor:1.2.3:4", "tor:1.2.3.4.5:6", "tor:0.0.0.0:0"):
         for hs in (HANDLER_SETS[1], HANDLER_SETS[2], HANDLER_SETS[3]):
             hint_cases.append((h, hs))
+    hint_cases = [(h, HANDLER_SETS[1]) for h in numeric_witnesses()] + hint_cases      # fixed witnesses first: simplest report
+    for h in ("i2p:a:80", "i2p:a", "i2p:a:0", "i2p:abc.i2p:99999", "i2p:a:00000", "i2p:a:", "i2p:a:123456", "x:anything", "x:", "a:b", ":x",
+              "tor:a:1", "tcp:h:1", "h:1", "tcp:h:x", "i2p", "nocolon"):
+        for hs in EXTRA_HANDLER_SETS:
+            hint_cases.append((h, hs))
+    for i, h in enumerate(hints[:ctx.n(90, 3000)]):
+        hint_cases.append((h, EXTRA_HANDLER_SETS[i % len(EXTRA_HANDLER_SETS)]))
     furls = []
     for _ in range(ctx.n(500, 20000)):
         f = gen_furl(rng)
@@ -992,7 +1165,12 @@ def run(ctx):
         if d is not None and len(ident) < ctx.n(110, 500):
             t, h, n = d
             ident += [impl.encode(t, [], n), impl.encode(t, ["x:1"], n), impl.encode(t, h, n + "z"), impl.encode((t + "a")[:32], h, n)]
-    oracle_identity(ctx, impl, ident)
+    # fixed witnesses and the systematic "differs only by a normalisation" family (letter case, Kelvin sign, whitespace, NFC/NFD)
+    variants = list(IDENTITY_WITNESSES)
+    for s, d in list(zip(furls, decoded))[:400]:
+        if d is not None and len(variants) < ctx.n(90, 400):
+            variants += spelling_variants(impl, *d)[:ctx.n(6, 12)]
+    oracle_identity(ctx, impl, variants + ident)
     for h, hs in hint_cases:
         oracle_hint(ctx, impl, h, hs)
     ctx.sample(dict(furl=furls[0], decoded=repr(impl.decode(furls[0]))))
@@ -1030,12 +1208,14 @@ def run(ctx):
         rx = [c for c in rx if not (c in seen or seen.add(c))]
         correspond_regex(ctx, impl, rx)
         correspond_functions(ctx, impl, furls, hint_cases)
+        correspond_bytes(ctx, impl, furls, rng)
         if ok:
             model_steps(ctx, impl)
 
     # 3a. identity of references that arrive as copies; getReference histories on one real Tub
     id_pairs = oracle_identity_copies(ctx, impl, rng)
     tub_cases = oracle_tub_histories(ctx, impl, rng)
+    oracle_containment(ctx, impl)
     if model_ok:
         correspond_identity(ctx, id_pairs)
         ok_c = True
